@@ -392,12 +392,39 @@ def run_unify_pair(acc, index, t1, t2):
     vs = [impl.to_engine(yp, v, vm) for v in (X, Y, Z)]
     e1, e2 = impl.to_engine(yp, t1, vm), impl.to_engine(yp, t2, vm)
     exp = canon([X, Y, Z], env) if env is not None else None
-    for mode, k in [('exhaust', None)] + [(m, kk) for kk in range(n + 1) for m in ('close', 'drop', 'throw')]:
+    for mode, k in [('exhaust', None)] + [(m, kk) for kk in range(n + 1) for m in ('close', 'drop', 'throw')] + [('never-started-close', 0), ('never-started-drop', 0)]:
         acc.n['evaluations'] += 1
         acc.n['validated'] += 1
         snap = snapshot()
         g = iter(impl.engine.unify(e1, e2))
         bad = None
+        if mode.startswith('never-started'):
+            # the unification is made but NEVER started; meanwhile ANOTHER unification binds its variables and sits at
+            # its answer; abandoning the one that never started changes nothing
+            others = [iter(impl.engine.unify(v, yp.atom('bound_by_another_%d' % i))) for i, v in enumerate(vs)]
+            for o in others:
+                next(o)
+            before = impl.observe(vs)
+            if mode.endswith('close') and hasattr(g, 'close'):
+                g.close()
+            g = None
+            gc.collect()
+            if impl.observe(vs) != before:
+                bad = ('never-started-unification-undoes-the-bindings-of-another', 'X, Y, Z were bound by other unifications to %r; after the unification that was never started was %s they read %r'
+                       % (before, 'closed' if mode.endswith('close') else 'dropped', impl.observe(vs)))
+            for o in reversed(others):
+                o.close()
+            if bad is None:
+                lo = leftover(snap)
+                if lo:
+                    bad = ('binding-left-behind:' + mode, lo)
+            if bad:
+                acc.violation('unify:' + bad[0], index + (mode, 0), {'unify': [_j(t1), _j(t2)], 'mode': mode, 'k': 0},
+                              'unify(%s, %s), %s: %s' % (pp(t1), pp(t2), mode, bad[1]), key='%s|%s|%s|0' % (pp(t1), pp(t2), mode))
+            else:
+                acc.n['transitions'] += 2
+                acc.outcome(('never-started', mode))
+            continue
         try:
             cnt = 0
             if mode == 'exhaust':
